@@ -52,6 +52,9 @@ def _task(t):
             ok, detail = confirm(S, out, va, vb, t['names'])
             res['detail'] = detail
             if not ok: res['verdict'] = 'unconfirmed_' + out.verdict
+            else:
+                try: res['sig'] = S.can_differ(va, vb, t['names'])
+                except Unsupported: res['sig'] = None
     except Unsupported as e:
         res.update(verdict='unsupported', msg=str(e))
     except Exception:
@@ -245,11 +248,12 @@ def run(tier):
         if r['verdict'] == 'fault':
             stats['disagreements_checked'] += 1
             rep.violation(key, '%s [%s]: %s by `%s` in %s (initial state %s)' % (r['pid'], r['label'], r['fault'], r['instruction'], r['function'], r['regs']),
-                          dict(kind='port-fault', source=t['src'], args=t['args'], fault=r['fault'], instruction=r['instruction'], regs=r['regs'], code={f: cb.funcs[f]['lines'] for f in cb.order}))
+                          dict(kind='port-fault', source=t['src'], args=t['args'], fault=r['fault'], instruction=r['instruction'], regs=r['regs'], code={f: cb.funcs[f]['lines'] for f in cb.order}),
+                          sig=['fault: %s by %s' % (r['fault'], str(r['instruction']).split()[0])])
         elif r['verdict'] in ('diff', 'termdiff'):
             stats['disagreements_checked'] += 1
             rep.violation(key, '%s [%s]: differs from the same program without the qualifier: %s %s' % (r['pid'], r['label'], r['detail'].get('regs'), r['detail'].get('diffs')),
-                          dict(kind='port-diff', source=t['src'], args=t['args'], detail=r['detail'], code={f: cb.funcs[f]['lines'] for f in cb.order}))
+                          dict(kind='port-diff', source=t['src'], args=t['args'], detail=r['detail'], code={f: cb.funcs[f]['lines'] for f in cb.order}), sig=r.get('sig'))
         elif r['verdict'].startswith('unconfirmed') or r['verdict'] == 'engine_error':
             rep.inconc('%s@%s: %s %s' % (r['pid'], r['label'], r['verdict'], r.get('msg', '')[-300:]))
         elif r['verdict'] == 'noasm':
